@@ -622,3 +622,10 @@ def run(idx, rep, tier):
              're-pauses the channel with nobody left to resume it and no '
              'further WINDOW_ADJUST is sent')
     writer_before_backlog(k, 'C08.R7')
+    from .shared import inbound_state_table
+    rep.rule('C08.R8', 'WINDOW_ADJUST is accepted in every receive state in '
+             'which we may still be sending (open, eof_pending, eof), data '
+             'only while open (table shared with C20.R6)')
+    inbound_state_table(k, 'C08.R8', only=('_process_window_adjust',
+                                            '_process_data',
+                                            '_process_extended_data'))
